@@ -270,6 +270,39 @@ Proof.
       rewrite ST in *. rewrite <- HB, (Rel_ledger_is _ _ _ R'). cbn [andb]. eapply IH; eassumption.
 Qed.
 
+Lemma Rel_accepts : forall cfg st o req st' res n,
+  Rel cfg st o -> open_order cfg st req = ODone st' res n ->
+  spec_accepts cfg (os_led o) req = accepted res.
+Proof.
+  intros cfg st o req st' res n R E.
+  assert (ACC : spec_accepts cfg (os_led o) req = spec_accepts cfg (abs_ledger st) req)
+    by (apply spec_step_ext; exact (rel_led _ _ _ R)).
+  destruct (step_refines cfg st req (rel_wf _ _ _ R)) as [st2 [res2 [n2 [E2 [A _]]]]].
+  rewrite E in E2. inversion E2; subst. rewrite ACC. symmetry. exact A.
+Qed.
+
+(** the blind oracle (response not seen) accepts the model's notifications exactly like the
+    sighted one *)
+Lemma oracle_open_blind_model : forall cfg st o req st' res n,
+  Rel cfg st o -> open_order cfg st req = ODone st' res n ->
+  oracle_open_blind cfg o req
+      (match n with Some x => [(n_asset x, n_bal x)] | None => [] end)
+      (match n with Some x => [n_trade x] | None => [] end) =
+  oracle_open cfg o req res
+      (match n with Some x => [(n_asset x, n_bal x)] | None => [] end)
+      (match n with Some x => [n_trade x] | None => [] end).
+Proof.
+  intros cfg st o req st' res n R E. unfold oracle_open_blind.
+  rewrite (Rel_accepts _ _ _ _ _ _ _ R E).
+  pose proof (notif_iff_accepted _ _ _ _ _ _ E) as NA.
+  destruct n as [x|].
+  - destruct (accepted_notif _ _ _ _ _ _ E) as [a [b [_ [_ [_ [Hres [Hn _]]]]]]].
+    cbn in Hres. subst res x. cbn [accepted n_trade fill_of t_id]. reflexivity.
+  - assert (A : accepted res = false).
+    { destruct (accepted res); [|reflexivity]. exfalso. apply (proj1 NA); reflexivity. }
+    rewrite A. destruct res as [? ? ?|e]; [discriminate|]. reflexivity.
+Qed.
+
 (* ---- run mode ------------------------------------------------------------------------------------------ *)
 
 Definition RelRun (cfg : config) (st : state) (o : ostate) : Prop :=
@@ -288,65 +321,85 @@ Qed.
 Lemma RelRun_tick : forall cfg st o t, RelRun cfg st o -> RelRun cfg (tick cfg st t) o.
 Proof. intros cfg st o t [R F]. split; [apply Rel_tick; exact R|exact F]. Qed.
 
-Lemma prop_batch_model : forall cfg rqs st o st' out rest,
-  RelRun cfg st o -> run cfg (Some st) rqs = (Some st', out) ->
+Lemma prop_batch_model : forall cfg brqs st o st' out rest,
+  RelRun cfg st o -> run cfg (Some st) (map fst brqs) = (Some st', out) ->
   exists o',
-    prop_batch cfg o rqs (combine (map echo_of rqs) (map fst out)) (flat_map snd out ++ rest)
+    prop_batch cfg o brqs (expected_resps brqs (map fst out)) (flat_map snd out ++ rest)
       = Some (o', rest) /\ RelRun cfg st' o'.
 Proof.
-  intros cfg rqs. induction rqs as [|rq t IH]; intros st o st' out rest RR E.
+  intros cfg brqs. induction brqs as [|[rq aw] t IH]; intros st o st' out rest RR E.
   - cbn in E. inversion E; subst. cbn. exists o. split; [reflexivity|exact RR].
-  - rewrite run_cons in E.
+  - cbn [map fst] in E. rewrite run_cons in E.
     pose proof RR as [R F].
     destruct (run_request_alive cfg st rq (rel_wf _ _ _ R)) as [st1 [resp [evs [E1 W1]]]].
-    rewrite E1 in E. destruct (run cfg (Some st1) t) as [ost2 out'] eqn:E2.
+    rewrite E1 in E. destruct (run cfg (Some st1) (map fst t)) as [ost2 out'] eqn:E2.
     inversion E; subst ost2 out. clear E.
-    cbn [map combine fst snd flat_map prop_batch].
+    unfold expected_resps. cbn [map combine fst snd flat_map prop_batch].
+    fold (expected_resps t (map fst out')).
     pose proof (RelRun_tick cfg st o (rq_time rq) RR) as [R1 F1].
     set (st0 := tick cfg st (rq_time rq)) in *.
     unfold run_request in E1. cbv zeta in E1. fold st0 in E1.
     destruct (rq_kind rq) as [| | |since| |req] eqn:K.
     + (* snapshot *)
       injection E1 as <- <- <-. cbn [app].
-      match goal with |- context [ledger_is o ?l] =>
-        replace (ledger_is o l) with true by (symmetry; exact (Rel_ledger_is _ _ _ R1)) end.
-      apply (IH st0 o st' out' rest); [split; assumption|exact E2].
+      destruct aw.
+      * match goal with |- context [ledger_is o ?l] =>
+          replace (ledger_is o l) with true by (symmetry; exact (Rel_ledger_is _ _ _ R1)) end.
+        apply (IH st0 o st' out' rest); [split; assumption|exact E2].
+      * apply (IH st0 o st' out' rest); [split; assumption|exact E2].
     + (* balances *)
       injection E1 as <- <- <-. cbn [app].
-      match goal with |- context [ledger_is o ?l] =>
-        replace (ledger_is o l) with true by (symmetry; exact (Rel_ledger_is _ _ _ R1)) end.
-      apply (IH st0 o st' out' rest); [split; assumption|exact E2].
+      destruct aw.
+      * match goal with |- context [ledger_is o ?l] =>
+          replace (ledger_is o l) with true by (symmetry; exact (Rel_ledger_is _ _ _ R1)) end.
+        apply (IH st0 o st' out' rest); [split; assumption|exact E2].
+      * apply (IH st0 o st' out' rest); [split; assumption|exact E2].
     + (* open orders *)
       injection E1 as <- <- <-. cbn [app].
-      apply (IH st0 o st' out' rest); [split; assumption|exact E2].
+      destruct aw; apply (IH st0 o st' out' rest); try (split; assumption); exact E2.
     + (* trades *)
-      injection E1 as <- <- <-. cbn [app]. unfold trades_since. rewrite F1, trades_eqb_refl.
-      apply (IH st0 o st' out' rest); [split; assumption|exact E2].
+      injection E1 as <- <- <-. cbn [app].
+      destruct aw.
+      * unfold trades_since. rewrite F1, trades_eqb_refl.
+        apply (IH st0 o st' out' rest); [split; assumption|exact E2].
+      * apply (IH st0 o st' out' rest); [split; assumption|exact E2].
     + (* cancel *)
       injection E1 as <- <- <-. cbn [app].
-      apply (IH st0 o st' out' rest); [split; assumption|exact E2].
+      destruct aw; apply (IH st0 o st' out' rest); try (split; assumption); exact E2.
     + (* open *)
       destruct (no_panic cfg st0 req (rel_wf _ _ _ R1)) as [st2 [res [n O]]].
       rewrite O in E1.
       destruct (oracle_open_model cfg st0 o req st2 res n R1 O) as [o' [OO [R2 FF]]].
+      pose proof (oracle_open_blind_model cfg st0 o req st2 res n R1 O) as OB.
+      pose proof (Rel_accepts cfg st0 o req st2 res n R1 O) as RA.
       pose proof (notif_iff_accepted _ _ _ _ _ _ O) as NA.
       destruct n as [x|].
       * injection E1 as <- <- <-.
-        assert (A : accepted res = true) by (apply NA; discriminate). rewrite A.
-        cbn [app firstn skipn ev_bals ev_trades flat_map]. cbn [app] in OO |- *. rewrite OO.
-        apply (IH (ack_trade st2 (n_trade x)) o' st' out' rest); [|exact E2].
-        destruct (accepted_notif _ _ _ _ _ _ O) as [a [b [_ [_ [_ [_ [_ Hst]]]]]]].
-        split.
-        -- eapply Rel_same_ledger; try exact R2; try reflexivity; auto.
-        -- rewrite FF, F1. cbn [ack_trade s_trades]. rewrite Hst. reflexivity.
+        assert (A : accepted res = true) by (apply NA; discriminate).
+        assert (NEXT : RelRun cfg (ack_trade st2 (n_trade x)) o').
+        { destruct (accepted_notif _ _ _ _ _ _ O) as [a [b [_ [_ [_ [_ [_ Hst]]]]]]].
+          split.
+          - eapply Rel_same_ledger; try exact R2; try reflexivity; auto.
+          - rewrite FF, F1. cbn [ack_trade s_trades]. rewrite Hst. reflexivity. }
+        destruct aw.
+        -- rewrite A. cbn [app firstn skipn ev_bals ev_trades flat_map]. cbn [app] in OO |- *.
+           rewrite OO. apply (IH (ack_trade st2 (n_trade x)) o' st' out' rest); [exact NEXT|exact E2].
+        -- rewrite RA, A. cbn [app firstn skipn ev_bals ev_trades flat_map].
+           cbn [app] in OO, OB |- *. rewrite OB, OO.
+           apply (IH (ack_trade st2 (n_trade x)) o' st' out' rest); [exact NEXT|exact E2].
       * injection E1 as <- <- <-.
         assert (A : accepted res = false).
         { destruct (accepted res); [|reflexivity]. exfalso. apply (proj1 NA); reflexivity. }
-        rewrite A. cbn [app firstn skipn ev_bals ev_trades flat_map]. rewrite OO.
-        apply (IH st2 o' st' out' rest); [|exact E2].
-        split; [exact R2|]. rewrite FF, app_nil_r, F1.
-        destruct res as [? ? ?|e]; [discriminate|].
-        destruct (reject_frame _ _ _ _ _ _ O) as [-> _]. reflexivity.
+        assert (NEXT : RelRun cfg st2 o').
+        { split; [exact R2|]. rewrite FF, app_nil_r, F1.
+          destruct res as [? ? ?|e]; [discriminate|].
+          destruct (reject_frame _ _ _ _ _ _ O) as [-> _]. reflexivity. }
+        destruct aw.
+        -- rewrite A. cbn [app firstn skipn ev_bals ev_trades flat_map]. rewrite OO.
+           apply (IH st2 o' st' out' rest); [exact NEXT|exact E2].
+        -- rewrite RA, A. cbn [app firstn skipn ev_bals ev_trades flat_map].
+           cbn [app] in OB |- *. rewrite OB, OO.
+           apply (IH st2 o' st' out' rest); [exact NEXT|exact E2].
 Qed.
 
 Lemma resps_eqb_eq : forall a b,
@@ -358,16 +411,16 @@ Qed.
 Lemma corr_prop_run : forall cfg bs os st o,
   RelRun cfg st o -> corr_run cfg (Some st) bs os = true -> prop_run cfg o bs os = true.
 Proof.
-  intros cfg bs. induction bs as [|rqs bs' IH]; intros [|ob os'] st o RR C; cbn [corr_run] in C;
+  intros cfg bs. induction bs as [|brqs bs' IH]; intros [|ob os'] st o RR C; cbn [corr_run] in C;
     try discriminate.
   - reflexivity.
   - pose proof RR as [R F].
-    destruct (run_alive cfg rqs st (rel_wf _ _ _ R)) as [st1 [out [E W1]]].
-    rewrite E in C. cbn [option_map] in C.
+    destruct (run_alive cfg (map fst brqs) st (rel_wf _ _ _ R)) as [st1 [out [E W1]]].
+    cbv zeta in C. rewrite E in C. cbn [option_map] in C.
     split_andb.
     match goal with H : list_eqb _ _ (ro_resps ob) = true |- _ => apply resps_eqb_eq in H; rename H into HR end.
     match goal with H : events_eqb _ _ = true |- _ => apply events_eqb_eq in H; rename H into HE end.
-    destruct (prop_batch_model cfg rqs st o st1 out [] RR E) as [o' [PB RR']].
+    destruct (prop_batch_model cfg brqs st o st1 out [] RR E) as [o' [PB RR']].
     rewrite app_nil_r in PB.
     cbn [prop_run]. rewrite <- HR, <- HE, PB.
     match goal with H : snap_matches _ _ _ = true |- _ => rename H into HS end.
@@ -377,7 +430,7 @@ Proof.
     split_andb.
     match goal with H : bals_eqb _ b = true |- _ => apply bals_eqb_eq in H; subst b end.
     match goal with H : trades_eqb _ ts = true |- _ => apply trades_eqb_eq in H; subst ts end.
-    pose proof (RelRun_tick cfg st1 o' (last_time rqs 0%Z) RR') as [R2 F2].
+    pose proof (RelRun_tick cfg st1 o' (last_time (map fst brqs) 0%Z) RR') as [R2 F2].
     rewrite (Rel_ledger_is _ _ _ R2). cbn [andb].
     rewrite F2, trades_eqb_refl. cbn [andb].
     eapply IH; [split; eassumption|eassumption].
